@@ -40,6 +40,7 @@ Section WithNum.
   Variable ofZ : Z -> num.                             (* integer -> double conversion *)
   Variable bad_wt : num -> bool.                       (* weight < 0 || isnan || isinf *)
   Variable cu : Z -> num.                              (* raw unit_double token -> number *)
+  Variable eps10 : num.                                (* 1e-10 *)
 
   Definition ofN (n : nat) : num := ofZ (Z.of_nat n).
 
@@ -339,9 +340,10 @@ Section WithNum.
 
   Definition reset (s : vo) : vo := vo_empty (vk s) (vgad s).
 
-  (* serialize followed by deserialize.  [deser_m] is the value deserialize() passes for m_. *)
-  Definition deser_m (r : nat) : nat := if (0 <? r)%nat then 1 else 0.
-  Definition serde_roundtrip (s : vo) : option vo :=
+  (* serialize followed by deserialize.  [dm r] is the value deserialize() passes for m_: 0 since the repair
+     fixes/16_deserialize_m.patch; the unrepaired code passed [deser_m_old r] (see Regression_varopt.v). *)
+  Definition deser_m_old (r : nat) : nat := if (0 <? r)%nat then 1 else 0.
+  Definition serde_roundtrip_gen (dm : nat -> nat) (s : vo) : option vo :=
     if (hh s =? 0)%nat && (rr s =? 0)%nat then Some (vo_empty (vk s) (vgad s)) else
     let marks := if vgad s then length (filter s_mark (vH s)) else O in
     if (vn s <=? Z.of_nat (vk s))%Z then
@@ -349,7 +351,8 @@ Section WithNum.
        else Some (mkvo (vk s) (vn s) (vH s) [] 0 [] zero (vgad s) marks))
     else
       (if (rr s =? 0)%nat || negb (hh s + rr s =? vk s)%nat || negb (ltb zero (vtot s)) then None
-       else Some (mkvo (vk s) (vn s) (vH s) [] (deser_m (rr s)) (vR s) (vtot s) (vgad s) marks)).
+       else Some (mkvo (vk s) (vn s) (vH s) [] (dm (rr s)) (vR s) (vtot s) (vgad s) marks)).
+  Definition serde_roundtrip : vo -> option vo := serde_roundtrip_gen (fun _ => O).
 
   (* a stream of updates from the empty sketch (what the theorems are about) *)
   Fixpoint feed (s : vo) (xs : list (Item * num)) (c : chs) : vo * chs :=
@@ -357,6 +360,134 @@ Section WithNum.
     | [] => (s, c)
     | (x, w) :: t => let '(s', c') := update_st s x w c in feed s' t c'
     end.
+
+  (* ================= var_opt_union (var_opt_union_impl.hpp) ================= *)
+  Record vu := mkvu {
+    un : Z;                (* n_ *)
+    uotn : num;            (* outer_tau_numer_ *)
+    uotd : nat;            (* outer_tau_denom_ *)
+    umaxk : nat;           (* max_k_ *)
+    ugad : vo              (* gadget_ *)
+  }.
+  Definition vu_empty (max_k : nat) : vu := mkvu 0%Z zero O max_k (vo_empty max_k true).
+
+  (* the weight-correcting R iterator: tau for every R item but the last, which gets total_wt_r - (sum so far) *)
+  Fixpoint r_samples (R : list Item) (tau tot cum : num) : list (Item * num * bool) :=
+    match R with
+    | [] => []
+    | x :: t => match t with
+                | [] => [(x, sub tot cum, true)]
+                | _ => (x, tau, true) :: r_samples t tau tot (add cum tau)
+                end
+    end.
+  Definition union_samples (sk : vo) : list (Item * num * bool) :=
+    map (fun x => (s_item x, s_wt x, false)) (vH sk) ++ r_samples (vR sk) (get_tau sk) (vtot sk) zero.
+
+  (* gadget_.update(item, weight, mark) for every sample; an exception leaves the gadget as it is at that point *)
+  Fixpoint upd_all (g : vo) (l : list (Item * num * bool)) (c : chs) : vo * chs * bool :=
+    match l with
+    | [] => (g, c, true)
+    | (x, w, mk) :: t =>
+        match update g x w mk c with
+        | URefused => (g, c, false)
+        | UIgnored => upd_all g t c
+        | UOk g' c' => upd_all g' t c'
+        | UThrew g' => (g', c, false)
+        end
+    end.
+
+  Definition merge_items (u : vu) (sk : vo) (c : chs) : vu * chs * bool :=
+    if (vn sk =? 0)%Z then (u, c, true) else
+    let '(g, c', okb) := upd_all (ugad u) (union_samples sk) c in
+    (mkvu (un u + vn sk)%Z (uotn u) (uotd u) (umaxk u) g, c', okb).
+
+  Definition get_outer_tau (u : vu) : num := if (uotd u =? 0)%nat then zero else div (uotn u) (ofN (uotd u)).
+
+  Definition resolve_tau (u : vu) (sk : vo) : vu :=
+    if (0 <? rr sk)%nat then
+      let sketch_tau := get_tau sk in
+      let outer_tau := get_outer_tau u in
+      if (uotd u =? 0)%nat then mkvu (un u) (vtot sk) (rr sk) (umaxk u) (ugad u)
+      else if ltb outer_tau sketch_tau then mkvu (un u) (vtot sk) (rr sk) (umaxk u) (ugad u)
+      else if eqb sketch_tau outer_tau then mkvu (un u) (add (uotn u) (vtot sk)) (uotd u + rr sk) (umaxk u) (ugad u)
+      else u
+    else u.
+
+  (* update(sk) = merge_items; resolve_tau.  The boolean is false when merge_items threw. *)
+  Definition union_update (u : vu) (sk : vo) (c : chs) : vu * chs * bool :=
+    let '(u1, c', okb) := merge_items u sk c in
+    if okb then (resolve_tau u1 sk, c', true) else (u1, c', false).
+
+  Definition union_reset (u : vu) : vu := mkvu 0%Z zero O (umaxk u) (reset (ugad u)).
+
+  (* var_opt_sketch(other, as_sketch, adjusted_n) *)
+  Definition copy_as (g : vo) (as_sketch : bool) (n : Z) : vo :=
+    mkvo (vk g) n (vH g) (vM g) (vmb g) (vR g) (vtot g) (if as_sketch then false else vgad g) (vmarks g).
+
+  (* there_exist_unmarked_h_items_lighter_than_target; [None] is a NaN target: every comparison is false *)
+  Definition exists_unmarked_lighter (g : vo) (target : option num) : bool :=
+    match target with
+    | None => false
+    | Some t => existsb (fun x => ltb (s_wt x) t && negb (s_mark x)) (vH g)
+    end.
+  (* the target passed by detect_and_handle_subcase_of_pseudo_exact: get_outer_tau() since the repair
+     fixes/16_union_pseudo_exact_tau.patch; the unrepaired code passed gadget_.get_tau(), NaN when r_ = 0 *)
+  Definition a4_target (u : vu) : option num := Some (get_outer_tau u).
+  Definition a4_target_old (u : vu) : option num :=
+    if (rr (ugad u) =? 0)%nat then None else Some (get_tau (ugad u)).
+
+  (* mark_moving_gadget_coercer(sk): marked H items go to R (filled from the back), unmarked stay in H in array
+     order (H is NOT re-heapified by the code) *)
+  Definition mark_moving (u : vu) (sk : vo) : option vo :=
+    let g := ugad u in
+    let marked := filter s_mark (vH g) in
+    let unmarked := filter (fun x => negb (s_mark x)) (vH g) in
+    let transferred := fold_left (fun a x => add a (s_wt x)) marked zero in
+    let d := sub transferred (uotn u) in
+    if ltb eps10 d || ltb d (mul m1 eps10) then None else
+    Some (mkvo (hh g + rr g) (un u) (map (fun x => mkslot (s_item x) (s_wt x) false) unmarked) (vM sk) (vmb sk)
+               (rev (vR g ++ map s_item marked)) (add (vtot g) transferred) false 0).
+
+  Fixpoint dec_loop (fuel : nat) (s : vo) (c : chs) : option (vo * chs) :=
+    if (vmarks s =? 0)%nat then Some (s, c) else
+    match fuel with
+    | O => None
+    | S f => match decrease_k_by_1 s c with
+             | None => None
+             | Some (s', c') => dec_loop f s' c'
+             end
+    end.
+
+  Definition strip_marks (s : vo) : vo := mkvo (vk s) (vn s) (vH s) (vM s) (vmb s) (vR s) (vtot s) false 0.
+
+  (* migrate_marked_items_by_decreasing_k *)
+  Definition migrate (g0 : vo) (c : chs) : option (vo * chs) :=
+    if (vmarks g0 =? 0)%nat then None
+    else if negb (rr g0 =? 0)%nat && negb (hh g0 + rr g0 =? vk g0)%nat then None
+    else
+      let g1 := if (rr g0 =? 0)%nat && (hh g0 <? vk g0)%nat then set_k g0 (hh g0) else g0 in
+      match decrease_k_by_1 g1 c with
+      | None => None
+      | Some (g2, c2) =>
+          if (0 <? rr g2)%nat && eqb (get_tau g2) zero then None      (* get_tau() == 0.0; NaN when r_ = 0 *)
+          else match dec_loop (vk g2) g2 c2 with
+               | None => None
+               | Some (g3, c3) => Some (strip_marks g3, c3)
+               end
+      end.
+
+  Definition get_result_gen (a4 : vu -> option num) (u : vu) (c : chs) : option (vo * chs) :=
+    let g := ugad u in
+    if (vmarks g =? 0)%nat then Some (copy_as g true (un u), c)
+    else
+      let gcopy := copy_as g false (un u) in
+      if (rr g =? 0)%nat && (0 <? vmarks g)%nat && (vmarks g =? uotd u)%nat && negb (exists_unmarked_lighter g (a4 u))
+      then match mark_moving u gcopy with
+           | None => None
+           | Some r => Some (r, c)
+           end
+      else migrate gcopy c.
+  Definition get_result : vu -> chs -> option (vo * chs) := get_result_gen a4_target.
 End WithNum.
 
 Arguments mkslot {Item num}.
@@ -375,6 +506,11 @@ Arguments vmarks {Item num}.
 Arguments hh {Item num}.
 Arguments mm {Item num}.
 Arguments rr {Item num}.
+Arguments un {Item num}.
+Arguments uotn {Item num}.
+Arguments uotd {Item num}.
+Arguments umaxk {Item num}.
+Arguments ugad {Item num}.
 
 (* ================= exact-arithmetic instance (Q) ================= *)
 Definition Qltb (a b : Q) : bool := negb (Qle_bool b a).
@@ -387,9 +523,15 @@ Definition f_ofZ (z : Z) : PrimFloat.float := PrimFloat.of_uint63 (Uint63.of_Z z
 Definition f_bad (w : PrimFloat.float) : bool :=
   PrimFloat.ltb w PrimFloat.zero || PrimFloat.is_nan w || PrimFloat.is_infinity w.
 Definition f_m1 : PrimFloat.float := PrimFloat.opp PrimFloat.one.
+Definition f_eps10 : PrimFloat.float := bits_to_float 4457293557087583675.   (* 0x3DDB7CDFD9D7BDBB = 1e-10 *)
 
 Notation fl := PrimFloat.float.
 Definition fvo := vo Z fl.
+Definition fvu := vu Z fl.
+
+(* the common argument prefix of the functions that reach update *)
+Notation FA f := (f Z 0 fl PrimFloat.zero PrimFloat.one f_m1 PrimFloat.add PrimFloat.sub PrimFloat.mul PrimFloat.div
+                    PrimFloat.ltb PrimFloat.leb PrimFloat.eqb f_ofZ f_bad bits_to_float) (only parsing).
 
 Definition F_update := update Z 0 fl PrimFloat.zero PrimFloat.one f_m1 PrimFloat.add PrimFloat.mul PrimFloat.div
                               PrimFloat.ltb PrimFloat.leb PrimFloat.eqb f_ofZ f_bad bits_to_float.
@@ -398,6 +540,10 @@ Definition F_estimate := estimate_subset_sum Z fl PrimFloat.zero PrimFloat.one P
                               PrimFloat.ltb f_ofZ.
 Definition F_serde := serde_roundtrip Z fl PrimFloat.zero PrimFloat.ltb.
 Definition F_empty := vo_empty Z fl PrimFloat.zero.
+Definition F_uempty := vu_empty Z fl PrimFloat.zero.
+Definition F_uupdate : fvu -> fvo -> chs -> fvu * chs * bool := FA union_update.
+Definition F_uresult : fvu -> chs -> option (fvo * chs) := FA get_result f_eps10.
+Definition F_ureset := union_reset Z fl PrimFloat.zero.
 
 (* sorting of the sample list by (item, weight bits) *)
 Definition pair_leb (a b : Z * Z) : bool :=
@@ -418,6 +564,8 @@ Definition scaled_of_bits (b : Z) : Z :=
 
 (* ghost log: accepted (item, weight bits) of every update that the specification counts *)
 Record full := mkfull { f_sk : fvo; f_log : list (Z * Z) }.
+(* a union and the concatenated logs of the sketches it was given *)
+Record ufull := mkufull { u_un : fvu; u_log : list (Z * Z) }.
 
 Definition log_n (l : list (Z * Z)) : Z := Z.of_nat (length l).
 Definition log_total (l : list (Z * Z)) : Z := fold_left (fun a p => a + scaled_of_bits (snd p)) l 0.
@@ -433,11 +581,20 @@ Definition pred_of (id arg : Z) : Z -> bool :=
   | _ => fun x => arg <=? x
   end.
 
-Definition st := list (Z * full).
+Record st := mkst { sregs : list (Z * full); uregs : list (Z * ufull) }.
+Definition getr (s : st) (r : Z) : option full := reg_get (sregs s) r.
+Definition setr (s : st) (r : Z) (f : full) : st := mkst (reg_set (sregs s) r f) (uregs s).
+Definition getu (s : st) (r : Z) : option ufull := reg_get (uregs s) r.
+Definition setu (s : st) (r : Z) (u : ufull) : st := mkst (sregs s) (reg_set (uregs s) r u).
 
 Definition chs0 (e : line) : chs := mkchs e false.
 Definition chs_ok (c : chs) : bool := negb (c_under c) && match c_rest c with [] => true | _ => false end.
 Definition bad_env : line := [-3].
+
+Definition dump_sketch (v : fvo) : line :=
+  let smp := sort_pairs (map (fun p => (fst p, float_to_bits (snd p))) (F_samples v)) in
+  vn v :: nz (vk v) :: nz (get_num_samples Z fl v) :: nz (hh v) :: nz (rr v)
+       :: (if (rr v =? 0)%nat then 0 else float_to_bits (vtot v)) :: flat_pairs smp.
 
 Definition step (s : st) (o e : line) : st * outline :=
   match o with
@@ -445,32 +602,28 @@ Definition step (s : st) (o e : line) : st * outline :=
   | 98 :: _ => (s, (ok, []))
   | 1 :: r :: k :: _ =>                                   (* new sketch r with k (resize factor not modelled) *)
       if (k <=? 0) || (max_k <? k) then (s, (refused, []))
-      else (reg_set s r (mkfull (F_empty (zn k) false) []), (ok, []))
+      else (setr s r (mkfull (F_empty (zn k) false) []), (ok, []))
   | 2 :: r :: x :: wb :: _ =>                             (* update r item weight-bits *)
-      match reg_get s r with
+      match getr s r with
       | None => (s, (refused, []))
       | Some f =>
           match F_update (f_sk f) x (bits_to_float wb) false (chs0 e) with
           | URefused _ _ => (s, (refused, []))
           | UIgnored _ _ => if chs_ok (chs0 e) then (s, (ok, [])) else (s, (bad_env, []))
           | UOk _ _ s' c' =>
-              if chs_ok c' then (reg_set s r (mkfull s' (f_log f ++ [(x, wb)])), (ok, []))
+              if chs_ok c' then (setr s r (mkfull s' (f_log f ++ [(x, wb)])), (ok, []))
               else (s, (bad_env, []))
-          | UThrew _ _ s' => (reg_set s r (mkfull s' (f_log f ++ [(x, wb)])), (refused, []))
+          | UThrew _ _ s' => (setr s r (mkfull s' (f_log f ++ [(x, wb)])), (refused, []))
           end
       end
   | 3 :: r :: _ =>                                        (* dump: n k num_samples h r total_wt_r samples ; S: n total log *)
-      match reg_get s r with
+      match getr s r with
       | None => (s, (refused, []))
       | Some f =>
-          let v := f_sk f in
-          let smp := sort_pairs (map (fun p => (fst p, float_to_bits (snd p))) (F_samples v)) in
-          (s, (vn v :: nz (vk v) :: nz (get_num_samples Z fl v) :: nz (hh v) :: nz (rr v)
-                  :: (if (rr v =? 0)%nat then 0 else float_to_bits (vtot v)) :: flat_pairs smp,
-               log_n (f_log f) :: log_total (f_log f) :: flat_pairs (f_log f)))
+          (s, (dump_sketch (f_sk f), log_n (f_log f) :: log_total (f_log f) :: flat_pairs (f_log f)))
       end
   | 4 :: r :: pid :: arg :: _ =>                          (* estimate_subset_sum: estimate, total_sketch_weight *)
-      match reg_get s r with
+      match getr s r with
       | None => (s, (refused, []))
       | Some f =>
           match F_estimate (f_sk f) (pred_of pid arg) with
@@ -481,25 +634,62 @@ Definition step (s : st) (o e : line) : st * outline :=
           end
       end
   | 5 :: r :: r2 :: _ =>                                  (* serialize r, deserialize into r2 *)
-      match reg_get s r with
+      match getr s r with
       | None => (s, (refused, []))
       | Some f =>
           match F_serde (f_sk f) with
           | None => (s, (refused, []))
-          | Some v => (reg_set s r2 (mkfull v (if (hh v =? 0)%nat && (rr v =? 0)%nat then [] else f_log f)), (ok, []))
+          | Some v => (setr s r2 (mkfull v (if (hh v =? 0)%nat && (rr v =? 0)%nat then [] else f_log f)), (ok, []))
           end
       end
   | 6 :: r :: _ =>                                        (* reset *)
-      match reg_get s r with
+      match getr s r with
       | None => (s, (refused, []))
-      | Some f => (reg_set s r (mkfull (reset Z fl PrimFloat.zero (f_sk f)) []), (ok, []))
+      | Some f => (setr s r (mkfull (reset Z fl PrimFloat.zero (f_sk f)) []), (ok, []))
       end
   | 7 :: r :: r2 :: _ =>                                  (* copy r into r2 *)
-      match reg_get s r with
+      match getr s r with
       | None => (s, (refused, []))
-      | Some f => (reg_set s r2 f, (ok, []))
+      | Some f => (setr s r2 f, (ok, []))
+      end
+  | 10 :: u :: k :: _ =>                                  (* new union u with max_k *)
+      if (k <=? 0) || (max_k <? k) then (s, (refused, []))
+      else (setu s u (mkufull (F_uempty (zn k)) []), (ok, []))
+  | 11 :: u :: r :: _ =>                                  (* union u . update(sketch r) *)
+      match getu s u, getr s r with
+      | Some uf, Some f =>
+          let '(u', c', okb) := F_uupdate (u_un uf) (f_sk f) (chs0 e) in
+          if okb then
+            if chs_ok c' then (setu s u (mkufull u' (u_log uf ++ f_log f)), (ok, []))
+            else (s, (bad_env, []))
+          else (setu s u (mkufull u' (u_log uf ++ f_log f)), (refused, []))
+      | _, _ => (s, (refused, []))
+      end
+  | 12 :: u :: r2 :: _ =>                                 (* get_result of u into register r2 *)
+      match getu s u with
+      | None => (s, (refused, []))
+      | Some uf =>
+          match F_uresult (u_un uf) (chs0 e) with
+          | None => (s, (refused, []))
+          | Some (v, c') =>
+              if chs_ok c' then (setr s r2 (mkfull v (u_log uf)), (ok, []))
+              else (s, (bad_env, []))
+          end
+      end
+  | 13 :: u :: _ =>                                       (* union reset *)
+      match getu s u with
+      | None => (s, (refused, []))
+      | Some uf => (setu s u (mkufull (F_ureset (u_un uf)) []), (ok, []))
+      end
+  | 14 :: u :: _ =>                                       (* union dump: n numer denom max_k marks gadget-dump ; S: n total *)
+      match getu s u with
+      | None => (s, (refused, []))
+      | Some uf =>
+          let v := u_un uf in
+          (s, (un v :: float_to_bits (uotn v) :: nz (uotd v) :: nz (umaxk v) :: nz (vmarks (ugad v)) :: dump_sketch (ugad v),
+               [log_n (u_log uf); log_total (u_log uf)]))
       end
   | _ => (s, ([-2], []))
   end.
 
-Definition run (ops : list opline) : list outline := run_case step [] ops.
+Definition run (ops : list opline) : list outline := run_case step (mkst [] []) ops.
